@@ -96,6 +96,57 @@ class Impl(object):
         return dict((k[2:], v) for k, v in strategy_obj.dc_replication_factors.items())
 
 
+class _FakeSchemaParser(object):
+    """what Metadata._rebuild_all needs from a schema parser: the list of all keyspaces (full schema refresh)"""
+    def __init__(self, metas):
+        self.metas = metas
+
+    def get_all_keyspaces(self):
+        return list(self.metas)
+
+
+def keyspace_meta(name, strat):
+    from cassandra.metadata import KeyspaceMetadata
+    if strat[0] == 'simple':
+        return KeyspaceMetadata(name, True, 'SimpleStrategy', {'replication_factor': strat[1]})
+    return KeyspaceMetadata(name, True, 'NetworkTopologyStrategy', dict(('dc%s' % d, v) for d, v in strat[1].items()))
+
+
+def play_history(layout, ring, history, queries, ks='ks'):
+    """Drive ONE keyspace through the real code paths the driver takes when schema / topology events arrive, querying
+    TokenMap.get_replicas after every step.  Yields (index, op, current ring, current strategy or None, [(token, replicas)]).
+    ops: ['query'] | ['update_keyspace', strat] (Metadata._update_keyspace: CREATE or ALTER event) | ['drop_keyspace']
+       | ['rebuild_all', strat] (Metadata._rebuild_all: full schema refresh) | ['assign_and_notify', strat] (keyspaces[ks]=...; _keyspace_updated)
+       | ['rebuild_ring', ring2] (Metadata.rebuild_token_map) | ['rebuild_keyspace'] | ['remove_keyspace'] (TokenMap methods: cache refresh / eviction)"""
+    impl = Impl(layout, ring)
+    m = impl.meta
+    cur_ring, cur = [list(e) for e in ring], None
+    for i, op in enumerate(history):
+        k = op[0]
+        if k == 'update_keyspace':
+            m._update_keyspace(keyspace_meta(ks, op[1]))
+            cur = op[1]
+        elif k == 'drop_keyspace':
+            m._drop_keyspace(ks)
+            cur = None
+        elif k == 'rebuild_all':
+            m._rebuild_all(_FakeSchemaParser([keyspace_meta('other', ['simple', '1']), keyspace_meta(ks, op[1])]))
+            cur = op[1]
+        elif k == 'assign_and_notify':
+            impl.set_keyspace(ks, op[1])
+            cur = op[1]
+        elif k == 'rebuild_ring':
+            cur_ring = [list(e) for e in op[1]]
+            impl.rebuild(cur_ring)
+        elif k == 'rebuild_keyspace':
+            m.token_map.rebuild_keyspace(ks, build_if_absent=False)
+        elif k == 'remove_keyspace':
+            m.token_map.remove_keyspace(ks)      # eviction only: the keyspace still exists, the next lookup rebuilds
+        elif k != 'query':
+            raise ValueError(op)
+        yield i, op, cur_ring, cur, [(t, impl.replicas(ks, t)) for t in queries]
+
+
 # ------------------------------------------------------------------ the oracle: Cassandra's placement
 def ring_iterator(ring, t):
     """hosts once around the sorted ring, starting at the first token >= t (wrapping to the first token)"""
